@@ -41,9 +41,21 @@ func Opts(c *eng.Case) *distiller.Options {
 // Run parses the case's HTML into a fresh tree and calls distiller.Apply. A library panic is
 // returned as *eng.PanicInfo (never propagated).
 func Run(c *eng.Case) (doc *html.Node, res *distiller.Result, err error, pi *eng.PanicInfo) {
-	doc = Parse(c.HTML)
+	doc = Parse(DecoratedHTML(c))
 	res, err, pi = Apply(doc, Opts(c))
 	return
+}
+
+// DecoratedHTML is the case's document, re-rendered with white space or comments between its
+// blocks when the case asks for it (parameter "decor"); the document itself when that is not
+// possible without changing the tree.
+func DecoratedHTML(c *eng.Case) string {
+	if d := c.Get("decor"); d != "" {
+		if h := Decorate(c.HTML, d); h != "" {
+			return h
+		}
+	}
+	return c.HTML
 }
 
 func Apply(doc *html.Node, o *distiller.Options) (res *distiller.Result, err error, pi *eng.PanicInfo) {
